@@ -330,9 +330,18 @@ func (n *HotNode) PendingOps() []*types.Operation {
 	for _, o := range m {
 		out = append(out, o)
 	}
+	// ids hash the payload, and payloads containing ECIES ciphertexts are not
+	// replay-stable (the product encrypts deals in Go map order, so which
+	// deal gets which randomness varies); sort by stable fields first.
 	sort.Slice(out, func(i, j int) bool {
 		if !out[i].CreatedAt.Equal(out[j].CreatedAt) {
 			return out[i].CreatedAt.Before(out[j].CreatedAt)
+		}
+		if out[i].DKGIdentifier != out[j].DKGIdentifier {
+			return out[i].DKGIdentifier < out[j].DKGIdentifier
+		}
+		if out[i].Type != out[j].Type {
+			return out[i].Type < out[j].Type
 		}
 		return out[i].ID < out[j].ID
 	})
